@@ -47,7 +47,9 @@ def gen(rng, broker, tier):
         elif k == "set_exception":
             script.append(["set_exception", rng.choice(["ValueError", "KeyError"])])
         elif k == "callback":
-            script.append(["callback", f"cb{len(script)}", rng.choice(["async", "sync"])])
+            # callbacks given as coroutine functions, plain functions or functools.partial objects of either; some of them fail
+            script.append(["callback", ("raise" if rng.random() < 0.25 else "cb") + str(len(script)),
+                           rng.choice(["async", "sync", "partial-async", "partial-sync"])])
         else:
             script.append(["eager", rng.choice(CALLS)])
     return {"mode": "actor", "max": mx, "tried": tried, "script": script, "calls": [], "store_result": rng.random() < 0.8,
@@ -184,12 +186,20 @@ async def _actor_mode(sim, sc, out):
                     log.append(("set-refused",))
             elif op[0] == "callback":
                 tag = op[1]
-                if op[2] == "async":
+                if op[2].endswith("async"):
                     async def cb(tag=tag):
                         rec.note("callback", "m", tag=tag)
+                        if tag.startswith("raise"):
+                            raise RuntimeError("callback " + tag)
                 else:
                     def cb(tag=tag):
                         rec.note("callback", "m", tag=tag)
+                        if tag.startswith("raise"):
+                            raise RuntimeError("callback " + tag)
+                if op[2].startswith("partial"):
+                    import functools
+
+                    cb = functools.partial(cb, tag)
                 msg.add_callback(cb)
                 log.append(("cb", tag))
             else:
